@@ -59,7 +59,8 @@ def notRemove : Eff → Bool
 theorem mem_pre {P : Params} {x : Eff × Option Path} (hx : x ∈ pre P) :
     isPrivate P.tmp P.target x.1 = true ∧ notRename x.1 = true ∧ notRemove x.1 = true ∧
       (∀ h, x.2 = some h → h = P.tmp) := by
-  simp only [pre, collectEffs, writeEffs, List.mem_cons, List.mem_append, List.mem_map, List.mem_singleton] at hx
+  simp only [pre, collectEffs, writeEffs, List.mem_cons, List.mem_append, List.mem_map, List.not_mem_nil,
+    or_false] at hx
   rcases hx with rfl | (⟨i, _, rfl⟩ | ⟨a, _, rfl⟩) | rfl <;> simp [isPrivate, notRename, notRemove]
 
 theorem isRen_normal {e : Eff} (h : notRename e = true) : isRen (normal e) = false := by
@@ -98,11 +99,13 @@ theorem mem_faultedRun {P : Params} {f : Fault} (h : f.pos < (body P).length) {s
   · right; left
     exact ⟨(body P)[f.pos], List.getElem_mem h, rfl⟩
   · right; right; left
-    have hmem : (body P)[f.pos] ∈ body P := List.getElem_mem h
+    obtain ⟨y, hy⟩ : ∃ y, (body P)[f.pos] = y := ⟨_, rfl⟩
+    have hmem : y ∈ body P := hy ▸ List.getElem_mem h
+    rw [hy] at hw
     rw [body_eq] at hmem
     rcases List.mem_append.mp hmem with hm | hm
     · have := (mem_pre hm).2.2.2
-      cases hw2 : (body P)[f.pos].2 with
+      cases hw2 : y.2 with
       | none => rw [hw2] at hw; simp at hw
       | some p =>
         rw [hw2] at hw
@@ -187,7 +190,10 @@ theorem faultedRun_caught {P : Params} {f : Fault} (h : f.pos < (body P).length)
 theorem execV_collects (l : List Nat) (v : View) : execV (l.map fun i => normal (Eff.collect i)) v = v := by
   induction l with
   | nil => rfl
-  | cons i r ih => simp [normal, stepV, ih] ; simpa [normal] using ih
+  | cons i r ih =>
+    rw [List.map_cons, execV_cons]
+    have : stepV (normal (Eff.collect i)) v = v := rfl
+    rw [this]; exact ih
 
 theorem execV_writes (p : Path) : ∀ (cs : List (Content × Bool)) (f b : Content) (s : Bool),
     ∃ f' b', execV (cs.map fun c => normal (Eff.write p c.1 c.2)) ⟨some f, ⟨b, s⟩⟩ = ⟨some f', ⟨b', s⟩⟩ ∧
@@ -213,17 +219,15 @@ theorem execV_writes (p : Path) : ∀ (cs : List (Content × Bool)) (f b : Conte
 /-- when the rename is reached the temporary file holds exactly the complete exposition and nothing is buffered -/
 theorem execV_pre (P : Params) (v : View) :
     execV ((pre P).map fun x => normal x.1) v = ⟨some P.new, ⟨[], v.loc.seen⟩⟩ := by
-  simp only [pre, List.map_cons, List.map_append, execV_cons, execV_append, collectEffs, writeEffs, List.map_map]
-  have hc := execV_collects (List.range P.collectors.length) (stepV (normal (Eff.openTrunc P.tmp)) v)
-  have hc' : execV (List.map ((fun x => normal x.1) ∘ fun i => (Eff.collect i, some P.tmp)) (List.range P.collectors.length))
-      (stepV (normal (Eff.openTrunc P.tmp)) v) = stepV (normal (Eff.openTrunc P.tmp)) v := hc
-  rw [hc']
+  have e1 : (collectEffs P).map (fun x => normal x.1)
+      = (List.range P.collectors.length).map fun i => normal (Eff.collect i) := by simp [collectEffs]
+  have e2 : (writeEffs P).map (fun x => normal x.1)
+      = P.chunks.map fun c => normal (Eff.write P.tmp c.1 c.2) := by simp [writeEffs]
+  simp only [pre, List.map_cons, List.map_append, execV_cons, execV_append, e1, e2, execV_collects]
   obtain ⟨f', b', h1, h2⟩ := execV_writes P.tmp P.chunks [] [] v.loc.seen
-  have h1' : execV (List.map ((fun x => normal x.1) ∘ fun c => (Eff.write P.tmp c.1 c.2, some P.tmp)) P.chunks)
-      (stepV (normal (Eff.openTrunc P.tmp)) v) = ⟨some f', ⟨b', v.loc.seen⟩⟩ := by
-    simpa [normal, stepV] using h1
-  rw [h1']
-  simp [normal, stepV, h2, flat_chunks]
+  have h0 : stepV (normal (Eff.openTrunc P.tmp)) v = ⟨some [], ⟨[], v.loc.seen⟩⟩ := rfl
+  rw [h0, h1]
+  simp [normal, stepV, h2, flat_chunks] at h2 ⊢
 
 theorem normalRun_ready (P : Params) (v : View) : Ready P.new (normalRun P) v := by
   rw [normalRun_eq, Ready_append]
